@@ -6,7 +6,7 @@ from ..harness import scn, gen, obs as O, pyeval
 from . import base_scn
 
 pid = 'C10'
-gen_modules = ['tr_state', 'tr_validators', 'tr_has_patcher', 'tr_contracts', 'tr_decorators', 'tr_pin_contracts', 'tr_rest_validators', 'tr_rest_patcher', 'tr_rest_state', 'tr_rest_errors', 'tr_rest_contractsconst']
+gen_modules = ['tr_state', 'tr_validators', 'tr_has_patcher', 'tr_contracts', 'tr_decorators', 'tr_pin_contracts', 'tr_rest_validators', 'tr_rest_patcher', 'tr_rest_state', 'tr_rest_errors', 'tr_rest_contractsconst', 'tr_rest_errsource']
 model_targets = ['Sem/Scenario.v']
 hand_modelled = ['coq/Sem/Model.v: new_contract_error / new_exception (what ContractError.__init__ and a plain exception constructor store)',
                  'str() / pickle / source rendering of ContractError: not modelled (observed on the implementation only)']
